@@ -101,9 +101,10 @@ var harnesses = map[string]*Harness{
 		PkgDir:   zz + "h3acc",
 		TestName: "TestVerifH3",
 		Files: map[string]string{
-			zz + "h3acc/h3acc_test.go": "harness/h3acc/h3acc_test.go",
-			zz + "h3acc/gen_test.go":   "harness/h3acc/gen_test.go",
-			zz + "pvmasm/asm.go":       "harness/pvmasm/asm.go",
+			zz + "h3acc/h3acc_test.go":  "harness/h3acc/h3acc_test.go",
+			zz + "h3acc/gen_test.go":    "harness/h3acc/gen_test.go",
+			zz + "h3acc/refine_test.go": "harness/h3acc/refine_test.go",
+			zz + "pvmasm/asm.go":        "harness/pvmasm/asm.go",
 		},
 		GoMaxProcs: 2,
 	},
@@ -194,7 +195,7 @@ var checks = []Check{
 		LevelNote:    "the process runs without a hard memory limit; hostile length prefixes are detected through the allocation counter, the pages are never touched",
 		Technique:    "deterministic simulation of the fuzz-protocol transport: seeded corruption / truncation / fragmentation of real session frames, panic and allocation oracles, tape shrinking + fresh-process replay",
 		DesignRef:    "DESIGN.md §4 H4 (transport faults), §5 C14",
-		ExpectProbes: []string{"fault:stream_bit-flip", "fault:stream_length-prefix-edit", "fault:stream_truncate-and-close", "fault:stream_garbage-frame", "fault:stream_unknown-message-type", "fault:stream_inner-length-edit", "fault:stream_byte-set", "fault:stream_discriminator-sweep", "fault:stream_discriminator_at_known_offset", "fault:stream_payload-cut-length-fixed", "fault:stream_fragmented_delivery", "probe:damaged_frame_rejected_with_error", "probe:damaged_frame_still_decodes"},
+		ExpectProbes: []string{"fault:stream_bit-flip", "fault:stream_length-prefix-edit", "fault:stream_truncate-and-close", "fault:stream_garbage-frame", "fault:stream_unknown-message-type", "fault:stream_inner-length-edit", "fault:stream_byte-set", "fault:stream_discriminator-sweep", "fault:stream_compact-integer-truncated", "fault:stream_discriminator_at_known_offset", "fault:stream_payload-cut-length-fixed", "fault:stream_fragmented_delivery", "probe:damaged_frame_rejected_with_error", "probe:damaged_frame_still_decodes"},
 	},
 	{
 		Property: "C26", Harness: "h4chain", Level: "exploration",
@@ -402,7 +403,7 @@ var checks = []Check{
 		LevelNote:    "weak fit: without an abort the property is a pure function; claimed for metering at abort points and reported usage",
 		Technique:    "deterministic simulation of the accumulation transaction: seeded host-call histories with injected abort points (gas exhaustion at tape-chosen / exhaustively swept step boundaries, traps, unreadable pointers), per-step reference-model oracles in exact integers, tape shrinking + fresh-process replay",
 		DesignRef:    "DESIGN.md §4 H3, §5 C04",
-		ExpectProbes: []string{"probe:exhaustive_gas_sweeps", "probe:oog_inside_host_call", "fault:gas_limit_abort_point", "probe:filler_instructions_between_host_calls", "probe:reported_gas_checked_after_trap", "probe:reported_gas_checked_after_memory_fault"},
+		ExpectProbes: []string{"probe:exhaustive_gas_sweeps", "probe:oog_inside_host_call", "fault:gas_limit_abort_point", "probe:filler_instructions_between_host_calls", "probe:reported_gas_checked_after_trap", "probe:reported_gas_checked_after_memory_fault", "probe:refine_exhaustive_gas_sweeps", "probe:refine_call_charge_checked_9", "probe:refine_call_charge_checked_12"},
 	},
 	{
 		Property: "C16", Harness: "h5cache", Level: "exploration",
